@@ -78,6 +78,20 @@ def pat(t):
     raise Conv("pattern " + k)
 
 
+NUMERIC = {"Int8", "Int16", "Int32", "Int64", "UInt8", "UInt16", "UInt32", "UInt64", "Float32", "Float64"}
+
+
+def lit_class(v):
+    """0 not a number, 1 a non-zero numeric literal, 2 a zero numeric literal (numeric_literal_is_zero in anf.rs)"""
+    if v[0] != "struct" or v[1] not in NUMERIC:
+        return 0
+    txt = v[2]["value"][1]
+    try:
+        return 2 if float(txt) == 0 else 1
+    except ValueError:
+        return 1
+
+
 def lexpr(t):
     if t[0] != "struct":
         raise Conv("lexpr " + repr(t)[:60])
@@ -85,7 +99,7 @@ def lexpr(t):
     if k == "EVar":
         return "(LVar %s)" % name(f["name"])
     if k == "EPrim":
-        return "(LPrim %s)" % S(canon(f["value"]))
+        return "(LPrim %s %d)" % (S(canon(f["value"])), lit_class(f["value"]))
     if k == "EConstr":
         if is_enum(f["constructor"]) and not f["args"][1]:
             return "(LTag %s)" % tag_index(f["constructor"])
